@@ -92,6 +92,13 @@ func Lib() *ty.Env {
 	// a named uint64 (the hash of such a field needs a conversion: F65), as a field, a map key and an element
 	add("NU64", "", b("uint64"), false)                                                                         // 46
 	add("SU", "", ty.St(f("A", ty.N(46)), f("M", ty.M(ty.N(46), b("string"))), f("L", ty.Sl(ty.N(46)))), false) // 47
+	// a named map and a named slice that declare their own DeepCopy (value receiver, written as the derived function
+	// copies them), and a struct that holds them in every position: the generator calls the method there
+	udm := add("UDM", "", ty.M(b("string"), b("int")), false) // 48
+	e.Decls[udm].Methods = "Dv"
+	uds := add("UDS", "", ty.Sl(b("int")), false) // 49
+	e.Decls[uds].Methods = "Dv"
+	add("UDW", "", ty.St(f("M", ty.N(48)), f("S", ty.N(49)), f("P", ty.P(ty.N(48))), f("L", ty.Sl(ty.N(48))), f("V", ty.M(b("string"), ty.N(49))), f("Q", ty.P(ty.N(49)))), false) // 50
 	return e
 }
 
@@ -230,7 +237,7 @@ func NewCorpusEnv(env *ty.Env, rng *rand.Rand, thorough bool, n2, extra int) *Co
 		ty.Sl(ty.P(ty.N(2))), ty.Sl(ty.Sl(ty.N(2))), ty.P(ty.St(ty.F("T", ty.N(2)), ty.F("S", ty.Sl(ty.B("string"))))),
 		ty.P(ty.St(ty.F("U", ty.B("uint64")), ty.F("V", ty.B("uint8")), ty.F("W", ty.M(ty.B("uint64"), ty.B("bool"))))),
 		ty.M(ty.B("bool"), ty.Sl(ty.B("string"))),
-		ty.P(ty.N(47)), ty.Sl(ty.N(46)),
+		ty.P(ty.N(47)), ty.Sl(ty.N(46)), ty.P(ty.N(50)),
 	} {
 		add(t)
 	}
@@ -301,6 +308,13 @@ func MethodSrc(d *ty.Decl) string {
 			// destination's backing array, same allocations): the models need not know the method exists, while the
 			// generator's method dispatch (call the method instead of requesting a helper) is exercised
 			src += fmt.Sprintf("func (this *%[1]s) DeepCopy(that *%[1]s) {\n\tthat.A = this.A\n\tif this.B == nil {\n\t\tthat.B = nil\n\t} else {\n\t\tif that.B != nil {\n\t\t\tif len(this.B) > len(that.B) {\n\t\t\t\tif cap(that.B) >= len(this.B) {\n\t\t\t\t\tthat.B = (that.B)[:len(this.B)]\n\t\t\t\t} else {\n\t\t\t\t\tthat.B = make([]int, len(this.B))\n\t\t\t\t}\n\t\t\t} else if len(this.B) < len(that.B) {\n\t\t\t\tthat.B = (that.B)[:len(this.B)]\n\t\t\t}\n\t\t} else {\n\t\t\tthat.B = make([]int, len(this.B))\n\t\t}\n\t\tcopy(that.B, this.B)\n\t}\n}\n\n", n)
+		case "Dv":
+			// on a named map or slice: the method copies as the derived function for the underlying type does
+			if d.Under.K == ty.Map {
+				src += fmt.Sprintf("func (this %[1]s) DeepCopy(that %[1]s) {\n\tfor k, v := range this {\n\t\tthat[k] = v\n\t}\n}\n\n", n)
+			} else {
+				src += fmt.Sprintf("func (this %[1]s) DeepCopy(that %[1]s) { copy(that, this) }\n\n", n)
+			}
 		case "Hp":
 			src += fmt.Sprintf("func (this *%[1]s) Hash() int32 {\n\tif this == nil {\n\t\treturn 0\n\t}\n\treturn int32(this.A)\n}\n\n", n)
 		}
